@@ -40,6 +40,10 @@ pub enum Fault {
     /// first n bytes of this artefact, the rest from another honest artefact of the same type
     Torn(usize),
     MultiBit(Vec<usize>),
+    /// a block (or, with len 0, the whole artefact) reads back as a memory-test pattern instead of its
+    /// data: kind 0 = 0xAA, 1 = 0x55, 2 = address-in-data (each byte is the low byte of its own offset,
+    /// as an LBA-stamped or never-initialised sector returns), 3 = a ramp starting at 0 in the block
+    Pattern { kind: u8, off: usize, len: usize },
 }
 
 impl Fault {
@@ -50,6 +54,8 @@ impl Fault {
             Fault::Lost(_) => "lost_write",
             Fault::Torn(_) => "torn_write",
             Fault::MultiBit(_) => "multi_bit_rot",
+            Fault::Pattern { kind: 2, .. } | Fault::Pattern { kind: 3, .. } => "address_pattern",
+            Fault::Pattern { .. } => "checkerboard_pattern",
         }
     }
     fn to_json(&self) -> Value {
@@ -59,6 +65,7 @@ impl Fault {
             Fault::Lost(v) => json!({"kind":"lost_write","value":v}),
             Fault::Torn(n) => json!({"kind":"torn_write","n":n}),
             Fault::MultiBit(b) => json!({"kind":"multi_bit_rot","bits":b}),
+            Fault::Pattern { kind, off, len } => json!({"kind":"pattern","pattern":kind,"offset":off,"len":len}),
         }
     }
     fn from_json(v: &Value) -> Option<Fault> {
@@ -67,6 +74,7 @@ impl Fault {
             "stuck_byte" => Fault::Stuck(v["byte"].as_u64()? as usize, v["value"].as_u64()? as u8),
             "lost_write" => Fault::Lost(v["value"].as_u64()? as u8),
             "torn_write" => Fault::Torn(v["n"].as_u64()? as usize),
+            "pattern" => Fault::Pattern { kind: v["pattern"].as_u64()? as u8, off: v["offset"].as_u64()? as usize, len: v["len"].as_u64()? as usize },
             "multi_bit_rot" => Fault::MultiBit(v["bits"].as_array()?.iter().map(|b| b.as_u64().map(|x| x as usize)).collect::<Option<Vec<_>>>()?),
             _ => return None,
         })
@@ -90,6 +98,17 @@ impl Fault {
             Fault::MultiBit(bits) => {
                 for b in bits {
                     x[(b / 8) % n] ^= 1 << (b % 8);
+                }
+            }
+            Fault::Pattern { kind, off, len } => {
+                let (lo, hi) = if *len == 0 { (0, n) } else { (off % n, ((off % n) + len).min(n)) };
+                for i in lo..hi {
+                    x[i] = match kind % 4 {
+                        0 => 0xAA,
+                        1 => 0x55,
+                        2 => i as u8,
+                        _ => (i - lo) as u8,
+                    };
                 }
             }
         }
@@ -650,7 +669,16 @@ fn gen_fault(p: &mut Prng, len: usize, region_bias: Option<(usize, usize)>) -> F
             _ => p.usize_below(n),
         }
     };
-    match p.below(10) {
+    match p.below(11) {
+        10 => {
+            let kind = p.below(4) as u8;
+            if p.chance(1, 2) {
+                Fault::Pattern { kind, off: 0, len: 0 }
+            } else {
+                let len = *p.pick(&[32usize, 64, 128, 512]);
+                Fault::Pattern { kind, off: (pos(p) / len) * len, len }
+            }
+        }
         0..=3 => Fault::BitFlip(pos(p) * 8 + p.usize_below(8)),
         4 => Fault::Stuck(pos(p), 0x00),
         5 => Fault::Stuck(pos(p), 0xFF),
